@@ -148,14 +148,15 @@ def face_hdelta(g, ax, hi):
     return np.asarray(h[tuple(sl)] * delta, dtype=float).reshape(side_shape(g, ax) or (1,))
 
 
-def make_bc(g, kinds, per, cmul=1.0):
+def make_bc(g, kinds, per, cmul=1.0, pmode="lo"):
     bc = pf.BoundaryConditions(g.mesh)
     amul = 2.0 ** g.spec.get("scale", 0)
     for ax in range(g.d):
         for hi in (0, 1):
             set_side(g, bc, ax, hi, kinds[2 * ax + hi], tag=200 + 10 * (2 * ax + hi), amul=amul, cmul=cmul)
         if ax in per:
-            getattr(bc, U.SIDES[ax][0]).periodic = True      # either face declares the axis periodic
+            # either face declares the axis periodic; "alt": low face on even axes, high face on odd ones
+            U.set_periodic(bc, ax, pmode if pmode != "alt" else ("lo", "hi")[ax % 2])
     return bc
 
 
@@ -315,15 +316,19 @@ def run_case(case):
         if tier == "quick":
             kvs = [k for k in kvs if sum(x != "N0" for x in k) != 2]   # singles + uniform vectors
     for kinds in kvs:
-        for per in pers:
+        for per, pmode in [(p_, m_) for p_ in pers for m_ in (("lo",) if not p_ else ("lo", "hi", "both", "alt"))]:
+            if pmode != "lo" and sum(x != "N0" for x in kinds) == 2:
+                continue        # the other ways of flagging the axis: default, single deviations and the uniform vectors
+            if pmode == "alt" and len(per) < 2:
+                continue
             for fname, fld in flds:
                 if fname in ("int64", "int32", "bool") and sum(x != "N0" for x in kinds) == 2:
                     continue        # typed initial arrays: default, single deviations and the uniform vectors
                 if op == "construct":
-                    v = pf.CellVariable(g.mesh, fld.copy(), make_bc(g, kinds, per, mag))
+                    v = pf.CellVariable(g.mesh, fld.copy(), make_bc(g, kinds, per, mag, pmode))
                 elif op == "apply_BCs":
                     v = pf.CellVariable(g.mesh, fld.copy())
-                    nb = make_bc(g, kinds, per, mag)
+                    nb = make_bc(g, kinds, per, mag, pmode)
                     for s in SIDE_NAMES:
                         o, n = getattr(nb, s), getattr(v.BCs, s)
                         if np.asarray(o._a).size:
@@ -334,13 +339,14 @@ def run_case(case):
                             n.periodic = True
                     v.apply_BCs()
                 elif op == "solvePDE":
-                    v = pf.CellVariable(g.mesh, fld.copy(), make_bc(g, kinds, per, mag))
+                    v = pf.CellVariable(g.mesh, fld.copy(), make_bc(g, kinds, per, mag, pmode))
                     pf.solvePDE(v, [pf.transientTerm(v, 0.5, 1.0), -pf.diffusionTerm(D)])
                 elif op == "solveExplicitPDE":
-                    v0 = pf.CellVariable(g.mesh, fld.copy(), make_bc(g, kinds, per, mag))
+                    v0 = pf.CellVariable(g.mesh, fld.copy(), make_bc(g, kinds, per, mag, pmode))
                     v = pf.solveExplicitPDE(v0, 0.125, rhs_expl)
                 elif op == "scale":
-                    _scale_case(g, kinds, per, fld, D, res, seen, mag)
+                    if pmode == "lo":
+                        _scale_case(g, kinds, per, fld, D, res, seen, mag)
                     continue
                 if not np.all(np.isfinite(np.asarray(v._value)[tuple(slice(1, -1) for _ in range(g.d))])):
                     res["precond_failed"] = res.get("precond_failed", 0) + 1
